@@ -161,4 +161,82 @@ impl Seipd2 {
             Some(pt) => { let t = self.open_from(c.skip(self.chunk as int + 16), i + 1, w + pt.len()); (pt + t.0, t.1) } })
     {
     }
+
+    // ---- the "log" reading of open_from -------------------------------------------------------------
+    /// the (nonce, ad, ciphertext) triples that RFC decryption of c opens successfully, in order, before the
+    /// final tag / the first failure
+    pub open spec fn log_from(self, c: Seq<u8>, i: nat, w: nat) -> Seq<(Seq<u8>, Seq<u8>, Seq<u8>)>
+        decreases c.len()
+    {
+        if c.len() <= 16 {
+            Seq::empty()
+        } else {
+            let m: int = if self.chunk + 16 <= c.len() - 16 { self.chunk as int + 16 } else { c.len() - 16 };
+            match self.open(i, self.info, c.subrange(0, m)) {
+                None => Seq::empty(),
+                Some(pt) => seq![(self.nonce(i), self.info, c.subrange(0, m))] + self.log_from(c.skip(m), i + 1, w + pt.len()),
+            }
+        }
+    }
+    /// concatenation of the plaintexts of a log
+    pub open spec fn log_plain(self, log: Seq<(Seq<u8>, Seq<u8>, Seq<u8>)>) -> Seq<u8>
+        decreases log.len()
+    {
+        if log.len() == 0 { Seq::empty() }
+        else {
+            (match aead_open(self.aead, self.sym, self.key, log[0].0, log[0].1, log[0].2) { Some(pt) => pt, None => Seq::empty() })
+            + self.log_plain(log.skip(1))
+        }
+    }
+    /// what open_from releases is exactly the concatenation, in order, of the plaintexts of the opened chunks;
+    /// chunk number k of the log was opened under nonce iv ++ be64(i + k) and AD info
+    pub proof fn lemma_released_is_log(self, c: Seq<u8>, i: nat, w: nat)
+        ensures
+            self.open_from(c, i, w).0 == self.log_plain(self.log_from(c, i, w)),
+            forall|k: int| 0 <= k < self.log_from(c, i, w).len() ==> {
+                let e = #[trigger] self.log_from(c, i, w)[k];
+                e.0 == self.iv + be64((i + k) as u64) && e.1 == self.info
+                && aead_open(self.aead, self.sym, self.key, e.0, e.1, e.2) is Some },
+        decreases c.len()
+    {
+        if c.len() <= 16 {
+            assert(self.log_plain(Seq::empty()) =~= Seq::<u8>::empty());
+        } else {
+            let m: int = if self.chunk + 16 <= c.len() - 16 { self.chunk as int + 16 } else { c.len() - 16 };
+            match self.open(i, self.info, c.subrange(0, m)) {
+                None => { assert(self.log_plain(Seq::empty()) =~= Seq::<u8>::empty()); }
+                Some(pt) => {
+                    let tail = self.log_from(c.skip(m), i + 1, w + pt.len());
+                    let log = self.log_from(c, i, w);
+                    self.lemma_released_is_log(c.skip(m), i + 1, w + pt.len());
+                    assert(log.skip(1) =~= tail);
+                    assert forall|k: int| 0 <= k < log.len() implies ({
+                        let e = #[trigger] log[k];
+                        e.0 == self.iv + be64((i + k) as u64) && e.1 == self.info
+                        && aead_open(self.aead, self.sym, self.key, e.0, e.1, e.2) is Some }) by {
+                        if k > 0 { assert(log[k] == tail[k - 1]); assert((i + 1 + (k - 1)) as u64 == (i + k) as u64); }
+                    }
+                }
+            }
+        }
+    }
+
+    // ---- the derived parameters and the round trip at packet level --------------------------------------
+    pub proof fn lemma_derive_ok(sym: SymmetricKeyAlgorithm, aead: AeadAlgorithm, chunk_octet: u8, salt: Seq<u8>, session_key: Seq<u8>)
+        requires aead_pair_supported(aead, sym), chunk_octet <= 16
+        ensures Seipd2::derive(sym, aead, chunk_octet, salt, session_key).ok()
+    {
+        let info = seipd2_info(sym, aead, chunk_octet);
+        axiom_hkdf_len(salt, session_key, info, (spec_key_size(sym) + spec_nonce_size(aead) - 8) as nat);
+        assert(chunk_octet <= 16 ==> (1u32 << ((chunk_octet as u32 + 6) as u32)) >= 64) by (bit_vector);
+    }
+    /// C01 at the level of the SEIPDv2 container body: for every supported (cipher, mode), chunk size octet,
+    /// salt, session key and payload p of any length, RFC decryption of RFC encryption gives Some(p).
+    pub proof fn lemma_roundtrip(sym: SymmetricKeyAlgorithm, aead: AeadAlgorithm, chunk_octet: u8, salt: Seq<u8>, session_key: Seq<u8>, p: Seq<u8>)
+        requires aead_pair_supported(aead, sym), chunk_octet <= 16
+        ensures ({ let s = Seipd2::derive(sym, aead, chunk_octet, salt, session_key); s.open_stream(s.seal_stream(p)) == Some(p) })
+    {
+        Seipd2::lemma_derive_ok(sym, aead, chunk_octet, salt, session_key);
+        Seipd2::derive(sym, aead, chunk_octet, salt, session_key).lemma_open_seal_stream(p);
+    }
 }
